@@ -56,6 +56,8 @@ def run(ctx):
     if first_var in defs and isinstance(defs[first_var], ast.Subscript) \
             and norm(defs[first_var].slice) == '0':
         str_var = norm(defs[first_var].value)
+    elif isinstance(b_upper.test.left, ast.Subscript) and norm(b_upper.test.left.slice) == '0':
+        str_var = norm(b_upper.test.left.value)      # tested directly as s[0]
     ctx.ob('C19.R2', 'dispatch:on-first-character', str_var is not None,
            'the branch variable is the first character of the (stripped, unsigned) field',
            mod, b_upper)
@@ -74,6 +76,7 @@ def run(ctx):
         for lv in len_vars:
             ev.env[lv] = n
         ev.env['len(%s)' % str_var] = n
+        ev.env[str_var] = 'A' * n          # a field of that width (len() of it folds)
         # statements in front of the dispatch (tables looked up by width, ...)
         top = branch
         while getattr(top, '_parent', None) is not fn and getattr(top, '_parent', None) is not None:
@@ -88,6 +91,7 @@ def run(ctx):
                         pass
                     for lv in len_vars:
                         ev.env[lv] = n
+                    ev.env[str_var] = 'A' * n
         ev.run([s for s in branch.body if isinstance(s, ast.Assign)])
         return ev.env
 
@@ -228,6 +232,10 @@ def run(ctx):
     # empty string rejected before indexing
     idx_stmt = next((s for s in fn.body if isinstance(s, ast.Assign)
                      and norm(s.targets[0]) == first_var), None)
+    if idx_stmt is None:
+        # the first character is read where it is tested: the first statement that does so
+        idx_stmt = next((s for s in fn.body if any(norm(n) == first_var for n in ast.walk(s)
+                                                    if isinstance(n, ast.Subscript))), None)
     empty_ok = False
     for stmt in fn.body:
         if stmt is idx_stmt:
